@@ -2899,7 +2899,7 @@ class PlateSlicer(Slicer):
                 elem, to_array[0][0] = Container.transfer(elem, to_array[0][0], quantity)
                 instructions = to_array[0][0].instructions.splitlines()
                 instructions[-1] = instructions[-1].replace(elem.name, frm.plate.name + " " + elem.name, 1)
-                elem.instructions = "\n".join(instructions)
+                to_array[0][0].instructions = "\n".join(instructions)
                 return elem
 
             to_array = to.get()
